@@ -213,7 +213,7 @@ class Tree(Generic[_Leaf_T]):
                     yield c
 
     def __deepcopy__(self, memo):
-        return type(self)(self.data, deepcopy(self.children, memo), meta=self._meta)
+        return type(self)(self.data, deepcopy(self.children, memo), meta=deepcopy(self._meta, memo))
 
     def copy(self) -> 'Tree[_Leaf_T]':
         return type(self)(self.data, self.children)
